@@ -34,6 +34,21 @@ CLAIMED["C01"] = (
     "DESIGN.md section 6 C01",
 )
 
+CLAIMED["C02"] = (
+    "Operator trees (all depth-1 programs over every leaf kind and operand order incl. Python numbers "
+    "and numpy arrays on the left, time/iterate shifts, wrapped functions, sparse products; sampled / "
+    "sharded depth-2 programs) are built with the real pp.ad classes on a real fractured md-grid and "
+    "evaluated by the real EquationSystem.evaluate/AdParser on a symbolic state, symbolic stored "
+    "histories and symbolic array/matrix coefficients. z3 decides per entry: value (with and without "
+    "derivative) = reference interpreter on value arrays, Jacobian = independent symbolic derivative "
+    "(so previous-time/iterate subtrees contribute zero columns), and type-admissible programs evaluate.",
+    "Floats as exact reals (two-stage exact/1e-9-tolerance equality for interpreter-rounded scalars); "
+    "values in [1/2,2], divisors and power bases bounded away from 0; one 10-dof md-grid; depth <= 2; "
+    "hash keys stubbed for symbolic leaf data.",
+    "symbolic execution of the AD parser/operators on z3 terms + reference interpreter + symbolic differentiation + SMT",
+    "DESIGN.md section 6 C02",
+)
+
 NOT_APPLICABLE = {
     "C11": "MPFA local systems are inverted in LAPACK/numba kernels on data-dependent block structures; a symbolic inverse of the interaction-region blocks is beyond z3/cvc5 and with concrete matrices nothing quantified remains for a solver.",
     "C13": "MPSA: same obstacle as C11 with 2-3x larger local systems.",
